@@ -10,7 +10,7 @@ import random
 import re
 import struct
 
-from lib import btc, chains, datadir, run
+from lib import btc, chains, datadir, run, tracecheck
 
 KINDS = ('none', 'tx', 'merkle', 'prev', 'foreign')
 
@@ -126,15 +126,25 @@ def main(ck, tier, w):
             how.append(what)
         d = write_dir(w, blocks, coin, stored)
         cb = obs['cb']
+        # traces are validated where the stored headers are intact (an altered header makes the block at the record's place
+        # another block than the record's, which the trace specification rightly refuses under C03)
+        tr = w.sub('trace') if obs['verify'] and all(k in ('none', 'tx') for k in obs['kinds']) and i % 2 == 0 else None
         r = run.run_parser(d.path, cb, dump=w.mk('out') if cb == 'csvdump' else None, coin=coin,
-                           start=obs['start'] or None, verify=obs['verify'])
+                           start=obs['start'] or None, verify=obs['verify'], trace=tr, skip='spend,create,eval,dump_row,bal_row')
         if not obs['verify']:
             # without --verify altered bytes may still make a block undecodable: only intact chains are judged
             probs = judge(r, True, None, cb) if all(k == 'none' for k in obs['kinds']) else []
         else:
             probs = judge(r, obs['exit'] == 0, obs['errH'], cb)
-        return obs, coin, how, probs, r
-    for obs, coin, how, probs, r in chains.pmap(one, list(enumerate(obs_list))):
+        return obs, coin, how, probs, r, tr
+    ran = chains.pmap(one, list(enumerate(obs_list)))
+    # T: verify events of a quarter of the runs validated against BlockParser.tla (verdict = merkle /\ genesis /\ link)
+    traced = [x for x in ran if x[5]]
+    for x, v in zip(traced, tracecheck.validate_many([x[5] for x in traced], batch=50)):
+        ck.traces()
+        if not v['accepted']:
+            x[3].append('trace rejected by BlockParser.tla: %s at event %s %s' % (v['reason'], v['rejected_at'], v['event'] or ''))
+    for obs, coin, how, probs, r, tr in ran:
         ck.evals()
         ck.traces()
         if obs['verify'] and any(k != 'none' for k in obs['kinds'][obs['start']:]):
